@@ -28,7 +28,10 @@ def main():
 			sh(f"git -C {wt} reset -q --hard HEAD")
 			ap_ = sh(f"git -C {wt} apply --whitespace=nowarn {os.path.abspath(os.path.join(d, 'patch.diff'))}")
 			if ap_.returncode != 0:
-				print(os.path.basename(d), "PATCH DOES NOT APPLY"); continue
+				ap_ = sh(f"git -C {wt} apply --3way --whitespace=nowarn {os.path.abspath(os.path.join(d, 'patch.diff'))}")
+				sh(f"git -C {wt} reset -q")
+				if ap_.returncode != 0 or "conflict" in ap_.stderr.lower():
+					print(os.path.basename(d), "PATCH DOES NOT APPLY"); continue
 			env = dict(os.environ, VERIF_REPO_SRC=f"{wt}/src")
 			pids = [m["property"]] + [x for x in a.props.split(",") if x and x != m["property"]]
 			out = []
